@@ -253,10 +253,32 @@ def bond_order_table(eng, res, fi):
     """R-BONDORDER-TABLE: the ladder `if "<ch>" in preceding: bond_type = X` read as an ordered table."""
     ladder = []  # (char, value-norm)
     default = None
+    # the ladder may fill a local that is stored into self.bond_type once, afterwards
+    stores = [n for n in own_nodes(fi.node) if isinstance(n, ast.Assign) and len(n.targets) == 1 and isinstance(n.targets[0], ast.Attribute)
+              and n.targets[0].attr == "bond_type" and isinstance(n.targets[0].value, ast.Name) and n.targets[0].value.id == "self"]
+    named = [n for n in stores if isinstance(n.value, ast.Name)]
+    via = named[0].value.id if len(named) == 1 else None
+
+    def _is_target(t):
+        if via is not None and isinstance(t, ast.Name) and t.id == via:
+            return True
+        return isinstance(t, ast.Attribute) and t.attr == "bond_type" and isinstance(t.value, ast.Name) and t.value.id == "self"
+
+    def _is_preceding(e):
+        """the text in front of the descriptor: the parameter / field itself or a local alias of it"""
+        if "preceding_characters" in src(e):
+            return True
+        if isinstance(e, ast.Name):
+            defs = [a for a in own_nodes(fi.node) if isinstance(a, ast.Assign) and len(a.targets) == 1 and isinstance(a.targets[0], ast.Name) and a.targets[0].id == e.id]
+            return len(defs) == 1 and isinstance(defs[0].value, (ast.Name, ast.Attribute)) and "preceding_characters" in src(defs[0].value)
+        return False
+
     for n in own_nodes(fi.node):
         if isinstance(n, ast.Assign) and len(n.targets) == 1:
             t = n.targets[0]
-            if isinstance(t, ast.Attribute) and t.attr == "bond_type" and isinstance(t.value, ast.Name) and t.value.id == "self":
+            if via is not None and n is named[0]:
+                continue  # the single hand-over of the local to the field
+            if _is_target(t):
                 p = getattr(n, "_parent", None)
                 if isinstance(p, ast.If) and n in p.body and len(p.body) == 1 and not p.orelse:
                     tst = eng.flow(fi).cfg.test_of(p)
@@ -266,7 +288,7 @@ def bond_order_table(eng, res, fi):
                         and isinstance(tst.ops[0], ast.In)
                         and isinstance(tst.left, ast.Constant)
                         and isinstance(tst.left.value, str)
-                        and "preceding_characters" in src(tst.comparators[0])
+                        and _is_preceding(tst.comparators[0])
                     ):
                         ladder.append((tst.left.value, src(n.value), n))
                         continue
